@@ -56,6 +56,9 @@ class CallMixin:
                 ty = TOpt(parse_type(e.args[0].value, self.reg.enums))
                 yield st, V(ty, ty.none())
                 return
+            if f.id == 'called':
+                yield st, mk_bool(any(k.startswith(f'$arg:{e.args[0].value}:') for k in st.env))
+                return
             if f.id == 'arg_of':
                 key = f'$arg:{e.args[0].value}:{e.args[1].value}'
                 if key not in st.env:
@@ -97,6 +100,9 @@ class CallMixin:
                 return
             if f.id == 'implies':
                 a = self.truthy(self.ev1(e.args[0], st))
+                if z3.is_false(z3.simplify(a)):
+                    yield st, mk_bool(True)         # the consequent may not even be well-defined (arg_of of a call not made)
+                    return
                 b = self.truthy(self.ev1(e.args[1], st))
                 yield st, V(BOOL, z3.Implies(a, b))
                 return
@@ -267,6 +273,9 @@ class CallMixin:
                 return
         if isinstance(ty, TPy) and ty.kind == 'super':
             raise Unsupported('call of super object')
+        if isinstance(ty, TObj) and f'<{ty.name}>.__call__' in self.reg.external:
+            yield from self.call_external(f'<{ty.name}>.__call__', [callee] + args, kwargs, st, exits, e)
+            return
         if isinstance(ty, TObj) and ty.name.startswith('Callable'):
             yield from self.call_external('<param>' + ty.name, [callee] + args, kwargs, st, exits, e)
             return
@@ -498,7 +507,7 @@ class CallMixin:
         if bound is None:
             bound = self.bind_params(node, self_v, args, kwargs, st, exits)
         for nm, tt in c.params.items():
-            if nm in bound:
+            if nm in bound and tt != 'Any':
                 bound[nm] = self.coerce(bound[nm], parse_type(tt, self.reg.enums), st)
         if c.self_type and 'self' in bound:
             bound['self'] = self.coerce(bound['self'], parse_type(c.self_type, self.reg.enums), st)
@@ -511,6 +520,7 @@ class CallMixin:
         # evaluate clauses in the callee's parameter environment
         cenv = dict(bound)
         caller_env = st.env
+        caller_env[f'$arg:{c.qualname}:'] = NONE_V       # called('callee')
         for pn, pv in bound.items():      # arg_of('callee', 'param') in later hints/asserts of the caller
             if not isinstance(pv.ty, TPy):
                 caller_env[f'$arg:{c.qualname}:{pn}'] = pv
@@ -518,7 +528,10 @@ class CallMixin:
         try:
             for nm, tx in c.lets.items():
                 cenv[nm] = self.ev_spec_val(tx, st)
+            spec_pure = bool(self.spec_mode) and c.pure and not c.modifies
             for k, r in enumerate(c.requires):
+                if spec_pure:
+                    break      # inside a specification a pure query is just its (uninterpreted) value
                 g = self.ev_spec(r, st)
                 st.env = caller_env
                 self.oblige('call-pre', st, g, line, f'{c.qualname}: requires {r}', tag=f'[{c.qualname}#{k}]')
@@ -575,6 +588,8 @@ class CallMixin:
             for en in c.ensures:
                 if 'arg_of(' in en:
                     continue      # clauses about the callee's own calls are checked in the callee, not exported
+                if spec_pure and not c.assumed:
+                    continue
                 st.assume(self.ev_spec(en, st, old=pre))
             st.env = caller_env
             if self.spec_mode or self.feasible(st):
